@@ -338,8 +338,10 @@ func FireTimer() bool    { time.Sleep(3 * TimerDuration); checkSide(); return tr
 func WakeSleepers() {}
 
 // Track registers an object graph for the engine's lockset (data race) analysis; RaceFree reports the result.
-func Track(obj any)   {}
-func RaceFree() bool { return true }
+func Track(obj any)      {}
+func StopTracking()      {}
+func RaceFree() bool     { return true }
+func RaceReport() string { return "" }
 
 const (
 	OrderInsertion = 0
